@@ -63,9 +63,11 @@ SetOK(o) == LET x == o.op.x IN
    /\ (ClearlyInvalid(x) => o.out = "raised")
    /\ CardNF(o.post.card)
 Outside(c, n) == (c[1] # N /\ n < c[1]) \/ (c[2] # N /\ n > c[2])
-WarnOK(s) == s.warn = Outside(s.card, s.count)
+\* warn: what a new validation reports; rwarn: what report() of a Validation object made before the step reports
+WarnOK(s) == s.warn = Outside(s.card, s.count) /\ s.rwarn = Outside(s.card, s.count)
 FreeEdit(o) == o.op.name \in {"add", "remove"} =>
                   /\ o.out = "ok" /\ o.post.card = o.pre.card
                   /\ o.post.count = (IF o.op.name = "add" THEN o.pre.count + 1 ELSE o.pre.count - 1)
-Persisted(o) == o.op.name = "saveload" => o.out = "ok" /\ o.post.card = o.pre.card /\ o.post.count = o.pre.count
+\* sibs: the siblings saved along (an earlier one with cardinalities of its own, later ones without) kept theirs too
+Persisted(o) == o.op.name = "saveload" => o.out = "ok" /\ o.post.card = o.pre.card /\ o.post.count = o.pre.count /\ o.post.sibs
 ====
